@@ -54,11 +54,17 @@ def cases(draw, tier="quick"):
     # file offers: another process creates a DIRECTORY named like the destination while the data is arriving
     # (after every existence check the receiver made, before its final rename)
     c["race_dir"] = draw(st.integers(0, 5)) == 0
+    # the transit connection dies after that fraction of the data (None: it does not)
+    c["conn_lost"] = draw(st.sampled_from([None, None, None, 0.0, 0.4, 0.99]))
     if c["kind"] == "directory":
         member = st.one_of(st.sampled_from(BENIGN), st.sampled_from(HOSTILE),
                            st.sampled_from(["sub/inner.txt", "sub/", "sub", "a/b/c", "a", "a/b", "dir1/", "x.tmp", "%SIBLING%", "%SIBLING%"]))
         c["members"] = draw(st.lists(st.tuples(member, st.sampled_from([0, 0o644, 0o755, 0o40755, 0o100600])).map(list),
                                      max_size=5))
+        if draw(st.integers(0, 5)) == 0:
+            # an archive entry flagged as a symbolic link (its body is the link target) followed by a member "below" it
+            pos = draw(st.integers(0, len(c["members"])))
+            c["members"][pos:pos] = [["lnk", 0o120777], ["lnk/notes.txt", 0o644]]
     return c
 
 
@@ -143,6 +149,14 @@ class FakePipe:
 
     def writeToFile(self, f, expected, progress=None, hasher=None):
         d = self.data[:expected] if expected is not None else self.data
+        if getattr(self, "cut", None) is not None:
+            from wormhole.transit import ConnectionClosed
+            part = d[:int(len(d) * self.cut)]
+            f.write(part)
+            if hasher:
+                hasher(part)
+            self.was_cut = True
+            return defer.fail(ConnectionClosed())
         f.write(d)
         if getattr(self, "race_path", None):
             try:
@@ -341,6 +355,8 @@ def _run(c, res, base, cmd_receive):
                     zi = zipfile.ZipInfo(mname)
                     zi.external_attr = (mode & 0xFFFF) << 16
                     body = b"" if mname.endswith("/") else ("content of %r" % mname).encode()
+                    if (mode & 0o170000) == 0o120000:
+                        body = b"../.."          # where the "link" points: two levels above the destination
                     try:
                         zf.writestr(zi, body)
                         nfiles += 1
@@ -372,6 +388,8 @@ def _run(c, res, base, cmd_receive):
     pipe = FakePipe(data)
     if c.get("race_dir") and c["kind"] == "file" and not os.path.lexists(dest):
         pipe.race_path = dest
+    if c.get("conn_lost") is not None:
+        pipe.cut = c["conn_lost"]
     outcome = []
     answers = [c["answer"]]
     with mock.patch("builtins.input", lambda prompt="": answers[0]), \
@@ -412,8 +430,11 @@ def _run(c, res, base, cmd_receive):
         if not allowed(p):
             what = "created" if p in created else "modified" if p in modified else "removed"
             if p == rel_tmp and tmp_pre:
+                # (a file offer uses <dest>.tmp as its scratch file - the known finding; a directory offer has no
+                # business with that path at all)
                 res.violate("clobber", "pre-existing %r (not named by --output-file) was %s; %s" % (p, what, info),
-                            input_class="preexisting-dest.tmp-clobbered")
+                            input_class="preexisting-dest.tmp-clobbered" if c["kind"] == "file" else
+                            "preexisting-dest.tmp-touched-by-directory-offer")
             else:
                 res.violate("outside", "%s %r which is neither the destination nor beneath it; %s" % (what, p, info),
                             input_class="wrote-outside-destination:%s" % _name_class(c))
